@@ -14,6 +14,20 @@ open Fix8Model.Realm Fix8Model.SortedSet Fix8Model.Gen
 theorem C12_table_find (l : List Int) (k : Int) (hs : Sorted l) (i : Nat) :
     getRlmIdxSet l k = some i ↔ (i < l.length ∧ el l i = k) := getRlmIdxSet_iff l k hs i
 
+/-- and miss exactly for absent keys: no entry of the table carries the key (the "exact map" reading of a miss) -/
+theorem C12_table_miss (l : List Int) (k : Int) (hs : Sorted l) :
+    getRlmIdxSet l k = none ↔ ∀ i, i < l.length → el l i ≠ k := by
+  constructor
+  · intro h i hi he
+    have := (C12_table_find l k hs i).mpr ⟨hi, he⟩
+    rw [h] at this; cases this
+  · intro h
+    cases hg : getRlmIdxSet l k with
+    | none => rfl
+    | some i =>
+      have := (C12_table_find l k hs i).mp hg
+      exact absurd this.2 (h i this.1)
+
 theorem C12_utest_tables_sorted :
     Sorted fieldKeys ∧ Sorted msgKeys ∧ ∀ r ∈ traitTags, Sorted r.2 := by
   have h1 : sortedB fieldKeys = true := by decide +kernel
